@@ -160,6 +160,9 @@ func zero(t types.Type) Value {
 	case *types.Pointer:
 		return Ptr{}
 	case *types.Struct:
+		if n, ok := t.(*types.Named); ok && n.Obj().Name() == "Value" && n.Obj().Pkg() != nil && n.Obj().Pkg().Path() == "reflect" {
+			return &RVal{}
+		}
 		return newStruct(t)
 	case *types.Array:
 		a := &Array{}
